@@ -599,6 +599,10 @@ pub fn all_shapes(thorough: bool) -> Vec<Box<dyn Shape>> {
         v.push(cfgs::bb::uni(TAir::Per { rows: 8 }));
         v.push(cfgs::kb::batch(vec![TAir::Per { rows: 16 }, add]));
         v.push(cfgs::kbzkh::batch(vec![TAir::Per { rows: 8 }]));
+        // uni-STARK of a row-local AIR: no `trace_next` opening at all (the pre-fix uni verifier
+        // circuit refused these honest proofs, see known_findings.jsonl `fixed:` C01)
+        v.push(cfgs::bb::uni(TAir::AddRl { rows: 8 }));
+        v.push(cfgs::kb5::uni(TAir::AddRl { rows: 16 }));
         // per-instance public values together with a global preprocessed commitment
         v.push(cfgs::bb::batch(vec![mulp, pv]));
         v.push(cfgs::kbzk::batch(vec![pv, mulp, add]));
